@@ -14,8 +14,11 @@ def S(*names):
 BASE = H("base.go")
 
 
+JOB_TIMEOUT_S = float(os.environ.get("VERIF_JOB_TIMEOUT", "900"))
+
+
 def job(entry, args=(), **kw):
-    j = {"entry": entry, "args": list(args)}
+    j = {"entry": entry, "args": list(args), "timeout_s": JOB_TIMEOUT_S}
     j.update(kw)
     return j
 
@@ -49,6 +52,7 @@ class Check:
         self.assumptions = []
         self.samples = []
         self.known = load_known()
+        self.nat = None
 
     # -- running
     def run_group(self, name, overlays, jobs, expect_labels=(), witness_replay=True, confirm=None, deadline_s=None):
@@ -89,10 +93,17 @@ class Check:
                     meta[cid] = ("wit", r, w)
         if cases:
             nat = Native(overlays)
+            self.nat = nat
             try:
                 out = nat.replay(cases)
+                self._confirm_all(meta, out, confirm)
             finally:
                 nat.close()
+                self.nat = None
+        return rs
+
+    def _confirm_all(self, meta, out, confirm):
+        if True:
             for cid, (kind, r, x) in meta.items():
                 n = out.get(cid, {"outcome": "missing"})
                 if kind == "wit":
@@ -112,7 +123,6 @@ class Check:
                             self.violations.append(rec)
                     else:
                         self.unconfirmed.append(rec)
-        return rs
 
     def add_violation(self, rec):
         k = match_known(self.prop, rec, self.known)
